@@ -203,6 +203,36 @@ type Wins struct {
 	M map[ext.Win]string
 }
 
+// UDiff declares a Compare method that answers with numbers other than -1 and +1, as strings.Compare-style comparators may.
+type UDiff struct {
+	Major, Minor int
+}
+
+func (x *UDiff) Compare(y *UDiff) int {
+	if x == nil || y == nil {
+		if x == nil && y == nil {
+			return 0
+		}
+		if x == nil {
+			return -7
+		}
+		return 7
+	}
+	far := func(a, b int) int { // sign only (no overflow), magnitude 3
+		switch {
+		case a < b:
+			return -3
+		case a > b:
+			return 3
+		}
+		return 0
+	}
+	if d := far(x.Major, y.Major); d != 0 {
+		return d
+	}
+	return far(x.Minor, y.Minor)
+}
+
 // Anon has anonymous struct fields (Equal, Hash and GoString take them; Compare
 // and DeepCopy refuse them with a diagnostic).
 type Anon struct {
